@@ -409,3 +409,27 @@ func (r *Reporter) IsKnown(key string) bool {
 	_, ok := r.known[key]
 	return ok
 }
+
+// Tally buffers the counter updates of judging one case, so that re-executions
+// made only to confirm a violation are not counted twice.
+type Tally struct {
+	ops []func(r *Reporter)
+}
+
+func (t *Tally) AddValidated(n int)   { t.ops = append(t.ops, func(r *Reporter) { r.AddValidated(n) }) }
+func (t *Tally) AddEvaluations(n int) { t.ops = append(t.ops, func(r *Reporter) { r.AddEvaluations(n) }) }
+func (t *Tally) AddTransitions(n int) { t.ops = append(t.ops, func(r *Reporter) { r.AddTransitions(n) }) }
+func (t *Tally) AddStates(n int)      { t.ops = append(t.ops, func(r *Reporter) { r.AddStates(n) }) }
+func (t *Tally) Nontrivial(id string) { t.ops = append(t.ops, func(r *Reporter) { r.Nontrivial(id) }) }
+func (t *Tally) Outcome(c string)     { t.ops = append(t.ops, func(r *Reporter) { r.Outcome(c) }) }
+func (t *Tally) Sample(s any)         { t.ops = append(t.ops, func(r *Reporter) { r.Sample(s) }) }
+func (t *Tally) Family(name string, accepted, nontrivial bool) {
+	t.ops = append(t.ops, func(r *Reporter) { r.Family(name, accepted, nontrivial) })
+}
+
+// Commit applies a tally.
+func (r *Reporter) Commit(t *Tally) {
+	for _, op := range t.ops {
+		op(r)
+	}
+}
